@@ -139,9 +139,9 @@ def h_await_each(n: int, steps: int, failing: int, s: int, as_iter: bool):
 
 
 # ---- apply: positional / keyword split ------------------------------------------------------------
-def h_apply(n: int, npos: int, failing: int, s: int, fraises: bool):
+def h_apply(n: int, npos: int, failing: int, s: int, fraises: bool, fret: int):
     """
-    pre: 0 <= n <= 4 and 0 <= npos <= n and -1 <= failing < n and 0 <= s <= 1
+    pre: 0 <= n <= 4 and 0 <= npos <= n and -1 <= failing < n and 0 <= s <= 1 and 0 <= fret <= 2
     post: _[0]
     post: not _[1]
     """
@@ -167,10 +167,27 @@ def h_apply(n: int, npos: int, failing: int, s: int, fraises: bool):
         kws[names[i]] = aws[i]
     seen = {}
 
+    class ResultAw:
+        """What the function returns may itself be awaitable: apply returns it as it is."""
+
+        def __await__(self):
+            return iter(())
+
+    async def _never():
+        return "must not be awaited by apply"
+
+    special = None
+    if fret == 1:
+        special = ResultAw()
+    elif fret == 2:
+        special = _never()
+
     def f(*a, **k):
         seen["a"], seen["k"] = a, k
         if fraises:
             raise fboom
+        if special is not None:
+            return special
         return ("called", a, tuple(sorted(k)))
 
     ok = True
@@ -190,13 +207,18 @@ def h_apply(n: int, npos: int, failing: int, s: int, fraises: bool):
         if fraises:
             if not (r[0] == "exc" and r[1] is fboom):
                 ok = fail("apply:function-exception-not-propagated", r) and ok
-        elif r[0] != "ok" or r[1][0] != "called":
+        elif special is not None:
+            if r[0] != "ok" or r[1] is not special:
+                ok = fail("apply:function-result-not-returned-as-is", r) and ok
+        elif r[0] != "ok" or type(r[1]) is not tuple or r[1][0] != "called":
             ok = fail("apply:result-not-returned", r) and ok
     for a in aws:
         a.close()
+    if special is not None and hasattr(special, "close"):
+        special.close()
     for v in W.viol:
         ok = fail("apply:%s" % v) and ok
-    return finish(ok, n >= 2, ("apply", n, npos, failing, bool(fraises)))
+    return finish(ok, n >= 2, ("apply", n, npos, failing, bool(fraises), fret))
 
 
 # ---- sync ------------------------------------------------------------------------------------------------
@@ -278,7 +300,7 @@ def h_sync(flavour: int, outcome: int, s: int):
 GRID = {
     "h_any_iter": lambda: [(n, o, k, i, st, s) for n in range(4) for o in (False, True) for k in range(4) for i in (False, True) for st in (0, 1, 2, 4) for s in (0, 1)],
     "h_await_each": lambda: [(n, st, f, s, a) for n in range(4) for st in (0, 1, 2, 4) for f in range(-1, n) for s in (0, 1) for a in (False, True)],
-    "h_apply": lambda: [(n, p, f, s, fr) for n in range(5) for p in range(n + 1) for f in range(-1, n) for s in (0, 1) for fr in (False, True)],
+    "h_apply": lambda: [(n, p, f, s, fr, ft) for n in range(5) for p in range(n + 1) for f in range(-1, n) for s in (0, 1) for fr in (False, True) for ft in (0, 1, 2)],
     "h_sync": lambda: [(f, o, s) for f in range(8) for o in (0, 1) for s in (0, 1)],
 }
 
@@ -297,7 +319,7 @@ def jobs(tier):
 
 LEVEL = "other"
 BOUNDS = {
-    "quick": "any_iter: all 16 combinations {plain, awaitable} x {list, sync iterator, async generator, class-based async iterator} x {plain items, awaitable items}, length 0..4, every number of consumer steps 0..5, awaitables suspending 0..1 times; await_each: length 0..4, steps, one failing awaitable at any position, list or lazy iterable; apply: 0..4 arguments, every positional/keyword split, one failing argument, failing function; sync: def / async def / partial(async def) / callable object returning a coroutine / lambda returning a coroutine / sync callable object / function returning a non-coroutine awaitable / partial(def), returning or raising",
+    "quick": "any_iter: all 16 combinations {plain, awaitable} x {list, sync iterator, async generator, class-based async iterator} x {plain items, awaitable items}, length 0..4, every number of consumer steps 0..5, awaitables suspending 0..1 times; await_each: length 0..4, steps, one failing awaitable at any position, list or lazy iterable; apply: 0..4 arguments, every positional/keyword split, one failing argument, failing function, function returning a plain value / a custom awaitable / a coroutine (returned as it is); sync: def / async def / partial(async def) / callable object returning a coroutine / lambda returning a coroutine / sync callable object / function returning a non-coroutine awaitable / partial(def), returning or raising",
     "thorough": "lengths 0..6",
 }
 OUTSIDE = ["lengths above the bound", "awaitable items that are themselves async iterables"]
